@@ -9,7 +9,7 @@ from run_patch import run, VERIF
 def main():
     args = [a for a in sys.argv[1:] if not a.startswith("--")]
     allp = "--all-props" in sys.argv
-    ids = sorted(d for d in os.listdir(os.path.join(VERIF, "seeded")) if os.path.isdir(os.path.join(VERIF, "seeded", d)))
+    ids = sorted(d for d in os.listdir(os.path.join(VERIF, "seeded")) if os.path.exists(os.path.join(VERIF, "seeded", d, "patch.diff")))
     if args:
         ids = [i for i in ids if i in args or i.split("-")[0] in args]
     have = [f"C{i:02d}" for i in range(1, 19) if os.path.exists(os.path.join(VERIF, "rules", f"c{i:02d}.py"))]
